@@ -5,7 +5,9 @@ case = {"files": {relpath: source}, "roots": [top-level dir or file names], "ord
    every module / class / function of the sources has the docstring '@@<full name at definition>' = its identity.
 out  = {"own": [[ctx_id, name, ctx_fullName, expandName, resolved|None], ...]  (every name of contents/alias map of every namespace),
         "objs": {fullName: {"kind", "id", "amap": {name: target}|None, "base": id|None, "state"}},
-        "results": [[ctx_fullName|None, expandName, [fullName, id]|None], ...], "reports": [...]}
+        "results": [[ctx_fullName|None, expandName, [fullName, id]|None], ...], "reports": [...],
+        "found": [["obj", fullName, id, kind] | ["none"] | ["LookupError", text] | None, ...]  System.find_object(expandName) per query,
+        "rootorder": [root full names in System.rootobjects order]}
        or {"error": "..."} when an exception escaped."""
 import contextlib, io, json, os, shutil, sys, tempfile
 from pathlib import Path
@@ -80,14 +82,26 @@ def run_case(case):
                 e['state'] = ST[o.state]
             objs[fn] = e
         results = []
+        found = []      # System.find_object(expandName(name)): the lookup that follows the alias a re-export leaves behind
+
+        def find(ex):
+            try:
+                f = system.find_object(ex)
+            except LookupError as e:
+                return ['LookupError', str(e)]
+            if f is None:
+                return ['none']
+            return ['obj', f.fullName(), ident(f), kind_of(f)]
         for ctx_id, dotted in case['queries']:
             ctx = byid.get(ctx_id)
             if ctx is None:
                 results.append([None, None, None])
+                found.append(None)
                 continue
             ex = ctx.expandName(dotted)
             r = ctx.resolveName(dotted)
             results.append([ctx.fullName(), ex, [r.fullName(), ident(r), kind_of(r)] if r is not None else None])
+            found.append(find(ex))
         # every name pydoctor itself knows in a namespace (contents + alias map), resolved in that namespace: lets the
         # harness check names that Python does NOT bind (e.g. names invented by a star import)
         own = []
@@ -102,7 +116,8 @@ def run_case(case):
                 r = ctx.resolveName(name)
                 own.append([i, name, ctx.fullName(), ctx.expandName(name),
                             [r.fullName(), ident(r), kind_of(r)] if r is not None else None])
-        return {'objs': objs, 'results': results, 'reports': reports, 'own': own}
+        return {'objs': objs, 'results': results, 'found': found, 'rootorder': [r.fullName() for r in system.rootobjects],
+                'reports': reports, 'own': own}
     except BaseException as e:  # noqa
         import traceback
         return {'error': '%s: %s' % (type(e).__name__, e), 'tb': traceback.format_exc()[-1500:]}
